@@ -128,51 +128,49 @@ theorem selHash_safe (pool : Pool) : Safe pool (selHash pool) := by
   have := hashGo_safe pool [] 0 .none
   simpa [selHash] using this (safe_none _)
 
-/-! ### weighted round robin: the candidates are available pool positions with a positive weight -/
+/-! ### weighted round robin: only usable positions (available, positive weight of their own) are returned -/
 
-/-- position `i` is available and carries a positive configured weight -/
-def WAt (ws : List Nat) (pool : Pool) (i : Nat) : Prop := AvailAt pool i ∧ ∃ w, ws[i]? = some w ∧ 0 < w
+theorem wrrUsable_iff {ws : List Nat} {pool : Pool} {i : Nat} :
+    wrrUsable ws pool i = true ↔ ∃ u w, pool[i]? = some u ∧ ws[i]? = some w ∧ u.avail = true ∧ 0 < w := by
+  unfold wrrUsable
+  cases hp : pool[i]? <;> cases hw : ws[i]? <;> simp
+  exact And.comm
 
-theorem wrrCollect_sound (ws : List Nat) (cap : Nat) : ∀ (rest pre : Pool) (acc ups : List Nat),
-    (∀ i ∈ acc, WAt ws (pre ++ rest) i) → wrrCollect ws cap rest pre.length acc = some ups →
-    ∀ i ∈ ups, WAt ws (pre ++ rest) i
-  | [], pre, acc, ups, hacc, h => by
-    simp [wrrCollect] at h; subst h; exact hacc
-  | u :: rest, pre, acc, ups, hacc, h => by
-    unfold wrrCollect at h
-    split at h
+/-- what the scan loop does: the first usable position among owner+k, owner+k+1, … -/
+theorem wrrScan_char (ws : List Nat) (pool : Pool) (owner : Nat) : ∀ (fuel k : Nat),
+    (∃ k', k ≤ k' ∧ k' < k + fuel ∧ wrrScan ws pool owner fuel k = .sel ((owner + k') % ws.length) ∧
+      wrrUsable ws pool ((owner + k') % ws.length) = true ∧
+      ∀ j, k ≤ j → j < k' → wrrUsable ws pool ((owner + j) % ws.length) = false) ∨
+    (wrrScan ws pool owner fuel k = .none ∧
+      ∀ j, k ≤ j → j < k + fuel → wrrUsable ws pool ((owner + j) % ws.length) = false)
+  | 0, k => Or.inr ⟨rfl, fun j h1 h2 => by omega⟩
+  | fuel + 1, k => by
+    unfold wrrScan
+    split
     · rename_i hu
-      split at h
-      · cases h
-      · rename_i w hw
-        have hnew : ∀ i ∈ acc ++ [pre.length], 0 < w → WAt ws (pre ++ u :: rest) i := by
-          intro i hi hpos
-          rcases List.mem_append.1 hi with hi | hi
-          · exact hacc i hi
-          · simp at hi; subst hi; exact ⟨availAt_mid pre u rest hu, w, hw, hpos⟩
-        split at h
-        · have := wrrCollect_sound ws cap rest (pre ++ [u]) acc ups
-          rw [snoc_append, snoc_length] at this
-          exact this hacc h
-        · rename_i hw0
-          split at h
-          · cases h; intro i hi; exact hnew i hi (by omega)
-          · have := wrrCollect_sound ws cap rest (pre ++ [u]) (acc ++ [pre.length]) ups
-            rw [snoc_append, snoc_length] at this
-            exact this (fun i hi => hnew i hi (by omega)) h
-    · have := wrrCollect_sound ws cap rest (pre ++ [u]) acc ups
-      rw [snoc_append, snoc_length] at this
-      exact this hacc h
+      exact Or.inl ⟨k, Nat.le_refl _, by omega, rfl, hu, fun j h1 h2 => by omega⟩
+    · rename_i hu
+      have hf : wrrUsable ws pool ((owner + k) % ws.length) = false := by simpa using hu
+      rcases wrrScan_char ws pool owner fuel (k + 1) with ⟨k', h1, h2, h3, h4, h5⟩ | ⟨h1, h2⟩
+      · refine Or.inl ⟨k', by omega, by omega, h3, h4, ?_⟩
+        intro j hj1 hj2
+        by_cases hjk : j = k
+        · subst hjk; exact hf
+        · exact h5 j (by omega) hj2
+      · refine Or.inr ⟨h1, ?_⟩
+        intro j hj1 hj2
+        by_cases hjk : j = k
+        · subst hjk; exact hf
+        · exact h2 j (by omega) (by omega)
 
-theorem wrrPick_mem {idx : Nat} {ups : List Nat} {i : Nat} (h : wrrPick idx ups = .sel i) : i ∈ ups := by
-  unfold wrrPick at h
-  split at h
-  · cases h
-  · split at h
-    · rename_i j hj
-      cases h
-      exact List.mem_of_getElem? hj
-    · cases h
+theorem wrrUsable_eff {ws : List Nat} {pool : Pool} {i : Nat} :
+    wrrUsable (wrrEff ws pool) pool i = wrrUsable ws pool i := by
+  unfold wrrUsable wrrEff
+  cases hp : pool[i]? with
+  | none => rfl
+  | some u =>
+    have hi : i < pool.length := (List.getElem?_eq_some_iff.1 hp).1
+    rw [List.getElem?_take_of_lt hi]
 
 theorem selWRR_sel {ws : List Nat} {pool : Pool} {c i : Nat} (h : (selWRR ws pool c).1 = .sel i) :
     AvailAt pool i ∧ (2 ≤ ws.length → ∃ w, ws[i]? = some w ∧ 0 < w) := by
@@ -183,13 +181,14 @@ theorem selWRR_sel {ws : List Nat} {pool : Pool} {c i : Nat} (h : (selWRR ws poo
     · exact ⟨selFirst_safe pool i h, fun h2 => by omega⟩
     · split at h
       · cases h
-      · split at h
-        · cases h
-        · rename_i ups hups
-          have := wrrCollect_sound ws _ pool [] [] ups (by simp) hups
-          have := this i (wrrPick_mem h)
-          simp at this
-          exact ⟨this.1, fun _ => this.2⟩
+      · simp only at h
+        rcases wrrScan_char (wrrEff ws pool) pool _ (wrrEff ws pool).length 0 with ⟨k', _, _, h3, h4, _⟩ | ⟨h1, _⟩
+        · rw [h3] at h
+          cases h
+          rw [wrrUsable_eff] at h4
+          obtain ⟨u, w, hu, hw, hav, hpos⟩ := wrrUsable_iff.1 h4
+          exact ⟨⟨u, hu, hav⟩, fun _ => ⟨w, hw, hpos⟩⟩
+        · rw [h1] at h; cases h
 
 theorem selWRR_safe (ws : List Nat) (pool : Pool) (c : Nat) : Safe pool (selWRR ws pool c).1 :=
   fun _ h => (selWRR_sel h).1
@@ -983,113 +982,50 @@ theorem selLeastConn_post (pool : Pool) (ds : List Nat) : LcPost pool (selLeastC
   have := lcGo_spec pool [] .none 0 none ds (Or.inl ⟨rfl, rfl, by simp⟩)
   simpa [selLeastConn] using this
 
-/-! ### weighted round robin when nothing is wrong: every upstream owns its share of the cycle -/
+theorem wrrScan_noPanic (ws : List Nat) (pool : Pool) (owner fuel k : Nat) :
+    (wrrScan ws pool owner fuel k).isPanic = false := by
+  rcases wrrScan_char ws pool owner fuel k with ⟨k', _, _, h, _⟩ | ⟨h, _⟩ <;> rw [h] <;> rfl
 
-theorem wrrCollect_some (ws : List Nat) (cap : Nat) : ∀ (rest pre : Pool) (acc : List Nat),
-    (pre ++ rest).length ≤ ws.length → wrrCollect ws cap rest pre.length acc ≠ none
-  | [], pre, acc, _ => by simp [wrrCollect]
-  | u :: rest, pre, acc, h => by
-    have hrec : ∀ acc', wrrCollect ws cap rest (pre.length + 1) acc' ≠ none := by
-      intro acc'
-      have := wrrCollect_some ws cap rest (pre ++ [u]) acc'
-      rw [snoc_append, snoc_length] at this
-      exact this h
-    unfold wrrCollect
-    split
-    · split
-      · rename_i hnone
-        have := List.getElem?_eq_none_iff.1 hnone
-        simp at h
-        omega
-      · split
-        · exact hrec _
-        · split
-          · simp
-          · exact hrec _
-    · exact hrec _
-
-theorem wrrPick_noPanic (idx : Nat) (ups : List Nat) : (wrrPick idx ups).isPanic = false := by
-  unfold wrrPick
-  split
-  · rfl
-  · rename_i h
-    split
-    · rfl
-    · rename_i hnone
-      have := List.getElem?_eq_none_iff.1 hnone
-      have := Nat.mod_lt idx (show 0 < ups.length by omega)
-      omega
-
-theorem selWRR_noPanic {ws : List Nat} {pool : Pool} (c : Nat) (h : wrrOK pool ws = true) :
-    (selWRR ws pool c).1.isPanic = false := by
+theorem selWRR_noPanic (ws : List Nat) (pool : Pool) (c : Nat) : (selWRR ws pool c).1.isPanic = false := by
   unfold selWRR
   split
   · rfl
   · split
     · exact selFirst_noPanic pool
-    · rename_i h2
-      simp [wrrOK, h2] at h
-      split
-      · omega
-      · split
-        · rename_i hnone
-          exact absurd hnone (wrrCollect_some ws _ pool [] [] (by simpa using h.2))
-        · exact wrrPick_noPanic _ _
+    · split
+      · rfl
+      · exact wrrScan_noPanic _ _ _ _ _
 
-/-- the candidate list is not empty as soon as an available upstream with a positive weight exists -/
-theorem wrrCollect_nonempty (ws : List Nat) (cap : Nat) : ∀ (rest pre : Pool) (acc ups : List Nat),
-    wrrCollect ws cap rest pre.length acc = some ups →
-    (acc ≠ [] ∨ ∃ k u w, rest[k]? = some u ∧ u.avail = true ∧ ws[pre.length + k]? = some w ∧ 0 < w) → ups ≠ []
-  | [], pre, acc, ups, h, hex => by
-    simp [wrrCollect] at h
-    subst h
-    rcases hex with h | ⟨k, u, w, h, _⟩
-    · exact h
-    · simp at h
-  | u :: rest, pre, acc, ups, h, hex => by
-    have hrec : ∀ acc', wrrCollect ws cap rest (pre.length + 1) acc' = some ups →
-        (acc' ≠ [] ∨ ∃ k u w, rest[k]? = some u ∧ u.avail = true ∧ ws[pre.length + 1 + k]? = some w ∧ 0 < w) → ups ≠ [] := by
-      intro acc'
-      have := wrrCollect_nonempty ws cap rest (pre ++ [u]) acc' ups
-      rw [snoc_length] at this
-      exact this
-    -- the witness is either `u` itself or further down
-    have hshift : ∀ (hu : ¬(u.avail = true ∧ ∃ w, ws[pre.length]? = some w ∧ 0 < w)),
-        (acc ≠ [] ∨ ∃ k u w, rest[k]? = some u ∧ u.avail = true ∧ ws[pre.length + 1 + k]? = some w ∧ 0 < w) := by
-      intro hu
-      rcases hex with h | ⟨k, x, w, h1, h2, h3, h4⟩
-      · exact Or.inl h
-      · cases k with
-        | zero =>
-          simp at h1
-          subst h1
-          exact absurd ⟨h2, w, by simpa using h3, h4⟩ hu
-        | succ k =>
-          refine Or.inr ⟨k, x, w, by simpa using h1, h2, ?_, h4⟩
-          rw [← h3]; congr 1; omega
-    unfold wrrCollect at h
-    split at h
-    · rename_i hav
-      split at h
-      · cases h
-      · rename_i w hw
-        split at h
-        · rename_i hw0
-          exact hrec acc h (hshift (by rintro ⟨_, w', hw', hpos⟩; rw [hw] at hw'; cases hw'; omega))
-        · split at h
-          · cases h; simp
-          · exact hrec _ h (Or.inl (by simp))
-    · rename_i hav
-      exact hrec acc h (hshift (by rintro ⟨h1, _⟩; exact hav h1))
+theorem selWRR_none_or_sel (ws : List Nat) (pool : Pool) (c : Nat) :
+    (selWRR ws pool c).1 = .none ∨ ∃ i, (selWRR ws pool c).1 = .sel i := by
+  unfold selWRR
+  split
+  · exact Or.inl rfl
+  · split
+    · rcases firstGo_spec pool [] with ⟨h, _⟩ | ⟨i, h, _⟩
+      · exact Or.inl (by simpa [selFirst] using h)
+      · exact Or.inr ⟨i, by simpa [selFirst] using h⟩
+    · split
+      · exact Or.inl rfl
+      · rcases wrrScan_char (wrrEff ws pool) pool
+            (wrrIndexGo (wrrEff ws pool) 0 0 (inc32 c % (wrrEff ws pool).sum)) (wrrEff ws pool).length 0
+          with ⟨k', _, _, h, _⟩ | ⟨h, _⟩
+        · exact Or.inr ⟨_, h⟩
+        · exact Or.inl h
 
-theorem wrrPick_live {idx : Nat} {ups : List Nat} (h : ups ≠ []) : ∃ i, wrrPick idx ups = .sel i := by
-  have hlen : 0 < ups.length := List.length_pos_iff.2 h
-  unfold wrrPick
-  rw [if_neg (by omega)]
-  have := Nat.mod_lt idx hlen
-  cases hh : ups[idx % ups.length]? with
-  | some i => exact ⟨i, rfl⟩
-  | none => have := List.getElem?_eq_none_iff.1 hh; omega
+/-- scanning a whole turn of the weight list from any owner finds a usable position if there is one -/
+theorem wrrScan_live (ws : List Nat) (pool : Pool) (owner i : Nat) (hi : wrrUsable ws pool i = true) :
+    ∃ j, wrrScan ws pool owner ws.length 0 = .sel j := by
+  obtain ⟨u, w, _, hw, _, _⟩ := wrrUsable_iff.1 hi
+  have hlt : i < ws.length := (List.getElem?_eq_some_iff.1 hw).1
+  rcases wrrScan_char ws pool owner ws.length 0 with ⟨k', _, _, h, _⟩ | ⟨_, h2⟩
+  · exact ⟨_, h⟩
+  · exfalso
+    obtain ⟨t, ht1, ht2, ht3⟩ := residue_hit ws.length (owner + ws.length - 1) i hlt
+    have hk := h2 (t - owner - ws.length) (Nat.zero_le _) (by omega)
+    have : owner + (t - owner - ws.length) + ws.length = t := by omega
+    rw [← Nat.add_mod_right, this, ht3, hi] at hk
+    cases hk
 
 /-- the pool index owning position `cw` of the weight cycle: the `i` with
     `tot + w₀ + … + w_{i-1} ≤ cw < tot + w₀ + … + w_i` -/
@@ -1097,22 +1033,18 @@ def ownerGo : List Nat → Nat → Nat → Nat → Option Nat
   | [], _, _, _ => none
   | w :: ws, i, tot, cw => if cw < tot + w then some i else ownerGo ws (i + 1) (tot + w) cw
 
-/-- pool indices (from `i0`) of the positive weights -/
-def posIdxFrom : Nat → List Nat → List Nat
-  | _, [] => []
-  | i, w :: ws => if 0 < w then i :: posIdxFrom (i + 1) ws else posIdxFrom (i + 1) ws
+/-- the code's owner loop computes that index -/
+theorem wrrIndexGo_eq_owner : ∀ (ws : List Nat) (i0 tot cw i : Nat), ownerGo ws i0 tot cw = some i →
+    wrrIndexGo ws i0 tot cw = i
+  | [], _, _, _, _, h => by simp [ownerGo] at h
+  | w :: ws, i0, tot, cw, i, h => by
+    unfold ownerGo at h
+    unfold wrrIndexGo
+    split at h
+    · rename_i hc; rw [if_pos hc]; cases h; rfl
+    · rename_i hc; rw [if_neg hc]; exact wrrIndexGo_eq_owner ws _ _ _ _ h
 
-theorem posIdxFrom_length : ∀ (i : Nat) (ws : List Nat), (posIdxFrom i ws).length = (posWeights ws).length
-  | _, [] => rfl
-  | i, w :: ws => by
-    unfold posIdxFrom posWeights
-    by_cases h : 0 < w
-    · simp [h]
-      have := posIdxFrom_length (i + 1) ws
-      simpa [posWeights] using this
-    · simp [h]
-      have := posIdxFrom_length (i + 1) ws
-      simpa [posWeights] using this
+/-! ### weighted round robin: every upstream owns its share of the cycle -/
 
 theorem ownerGo_spec : ∀ (ws : List Nat) (i0 tot cw i : Nat), tot ≤ cw → ownerGo ws i0 tot cw = some i →
     ∃ k w, i = i0 + k ∧ ws[k]? = some w ∧ tot + (ws.take k).sum ≤ cw ∧ cw < tot + (ws.take k).sum + w
@@ -1135,85 +1067,6 @@ theorem ownerGo_some : ∀ (ws : List Nat) (i0 tot cw : Nat), tot ≤ cw → cw 
     split
     · exact ⟨i0, rfl⟩
     · exact ownerGo_some ws (i0 + 1) (tot + w) cw (by omega) (by simp [List.sum_cons] at h; omega)
-
-/-- the index computed on the filtered weights, looked up in the list of positive-weight
-    positions, is the owner computed on the unfiltered weights -/
-theorem wrrIndexGo_owner : ∀ (ws : List Nat) (i0 b0 tot cw : Nat), tot ≤ cw → cw < tot + ws.sum →
-    b0 ≤ wrrIndexGo (posWeights ws) b0 tot cw ∧
-    (posIdxFrom i0 ws)[wrrIndexGo (posWeights ws) b0 tot cw - b0]? = ownerGo ws i0 tot cw
-  | [], _, _, _, _, h1, h2 => by simp at h2; omega
-  | w :: ws, i0, b0, tot, cw, h1, h2 => by
-    by_cases hw : 0 < w
-    · have hp : posWeights (w :: ws) = w :: posWeights ws := by simp [posWeights, hw]
-      rw [hp]
-      unfold wrrIndexGo ownerGo posIdxFrom
-      rw [if_pos hw]
-      by_cases hc : cw < tot + w
-      · simp [hc]
-      · rw [if_neg hc, if_neg hc]
-        obtain ⟨ih1, ih2⟩ := wrrIndexGo_owner ws (i0 + 1) (b0 + 1) (tot + w) cw (by omega)
-          (by simp [List.sum_cons] at h2; omega)
-        refine ⟨by omega, ?_⟩
-        rw [← ih2]
-        have : wrrIndexGo (posWeights ws) (b0 + 1) (tot + w) cw - b0
-            = (wrrIndexGo (posWeights ws) (b0 + 1) (tot + w) cw - (b0 + 1)) + 1 := by omega
-        rw [this, List.getElem?_cons_succ]
-    · have hw0 : w = 0 := by omega
-      subst hw0
-      have hp : posWeights (0 :: ws) = posWeights ws := by simp [posWeights]
-      rw [hp]
-      unfold ownerGo posIdxFrom
-      rw [if_neg (by omega), if_neg (by omega)]
-      have := wrrIndexGo_owner ws (i0 + 1) b0 tot cw h1 (by simpa [List.sum_cons] using h2)
-      simpa using this
-
-/-- with every upstream available and one weight per upstream, the candidates are exactly
-    the positions with a positive weight -/
-theorem wrrCollect_all (ws : List Nat) (cap : Nat) : ∀ (rest pre : Pool) (wsp wsr : List Nat) (acc : List Nat),
-    ws = wsp ++ wsr → wsp.length = pre.length → rest.length = wsr.length → (∀ v ∈ rest, v.avail = true) →
-    acc.length + (posWeights wsr).length = cap →
-    wrrCollect ws cap rest pre.length acc = some (acc ++ posIdxFrom pre.length wsr)
-  | [], pre, wsp, wsr, acc, _, _, h3, _, _ => by
-    have : wsr = [] := List.length_eq_zero_iff.1 (by simpa using h3.symm)
-    subst this
-    simp [wrrCollect, posIdxFrom]
-  | u :: rest, pre, wsp, [], acc, _, _, h3, _, _ => by simp at h3
-  | u :: rest, pre, wsp, w :: wsr, acc, h1, h2, h3, h4, h5 => by
-    have hu : u.avail = true := h4 u (List.mem_cons_self ..)
-    have hget : ws[pre.length]? = some w := by rw [h1, ← h2]; simp
-    have hrec : ∀ acc', acc'.length + (posWeights wsr).length = cap →
-        wrrCollect ws cap rest (pre.length + 1) acc' = some (acc' ++ posIdxFrom (pre.length + 1) wsr) := by
-      intro acc' hcap
-      have := wrrCollect_all ws cap rest (pre ++ [u]) (wsp ++ [w]) wsr acc'
-      rw [snoc_length] at this
-      exact this (by simp [h1]) (by simp [h2]) (by simpa using h3) (fun v hv => h4 v (List.mem_cons_of_mem _ hv)) hcap
-    unfold wrrCollect
-    rw [if_pos hu, hget]
-    simp only
-    by_cases hw : w = 0
-    · subst hw
-      rw [if_pos rfl]
-      have hp : posWeights (0 :: wsr) = posWeights wsr := by simp [posWeights]
-      rw [hp] at h5
-      rw [hrec acc h5]
-      simp [posIdxFrom]
-    · rw [if_neg hw]
-      have hp : posWeights (w :: wsr) = w :: posWeights wsr := by
-        have : 0 < w := by omega
-        simp [posWeights, this]
-      rw [hp] at h5
-      simp at h5
-      have hpi : posIdxFrom pre.length (w :: wsr) = pre.length :: posIdxFrom (pre.length + 1) wsr := by
-        have : 0 < w := by omega
-        simp [posIdxFrom, this]
-      rw [hpi]
-      split
-      · rename_i hcap
-        have : (posIdxFrom (pre.length + 1) wsr).length = 0 := by
-          rw [posIdxFrom_length]; omega
-        rw [List.length_eq_zero_iff.1 this]
-      · rw [hrec (acc ++ [pre.length]) (by simp; omega)]
-        simp
 
 /-! ### further helpers used by the property theorems -/
 
@@ -1464,57 +1317,11 @@ theorem rr_each_once (pool : Pool) (c : Nat) (ds : List Nat) (ha : anyAvail pool
 
 /-! ### weighted round robin over a cycle -/
 
-/-- all upstreams available, one weight per upstream: the selection at counter `c` is the owner
-    of position `(c+1) mod W` of the weight cycle -/
-theorem selWRR_owner (ws : List Nat) (pool : Pool) (c : Nat)
-    (hall : ∀ v ∈ pool, v.avail = true) (hlen : ws.length = pool.length) (h2 : 2 ≤ ws.length)
-    (hs : 0 < ws.sum) (hc : c + 1 < u32) :
-    ∃ i, ownerGo ws 0 0 ((c + 1) % ws.sum) = some i ∧ selWRR ws pool c = (.sel i, c + 1) := by
-  have hcw : (c + 1) % ws.sum < ws.sum := Nat.mod_lt _ hs
-  obtain ⟨i, hown⟩ := ownerGo_some ws 0 0 ((c + 1) % ws.sum) (Nat.zero_le _) (by omega)
-  refine ⟨i, hown, ?_⟩
-  have hcol := wrrCollect_all ws (posWeights ws).length pool [] [] ws [] rfl rfl hlen.symm hall (by simp)
-  obtain ⟨_, hidx⟩ := wrrIndexGo_owner ws 0 0 0 ((c + 1) % ws.sum) (Nat.zero_le _) (by omega)
-  rw [hown] at hidx
-  simp only [Nat.sub_zero] at hidx
-  unfold selWRR
-  rw [if_neg (by omega), if_neg (by omega), if_neg (by omega)]
-  simp only [List.length_nil, List.nil_append] at hcol
-  rw [hcol, inc32_of_lt hc]
-  simp only
-  congr 1
-  have hlt : wrrIndexGo (posWeights ws) 0 0 ((c + 1) % ws.sum) < (posIdxFrom 0 ws).length :=
-    (List.getElem?_eq_some_iff.1 hidx).1
-  unfold wrrPick wrrIndex
-  rw [if_neg (by omega), Nat.mod_eq_of_lt hlt, hidx]
-
 theorem run_wrr_succ (m : Nat) (ws : List Nat) (pool : Pool) (c : Nat) (ds : List Nat) :
     run (m + 1) (.wrr ws c) pool ds =
       (((selWRR ws pool c).1, []) :: (run m (.wrr ws (selWRR ws pool c).2) pool ds).1,
         (run m (.wrr ws (selWRR ws pool c).2) pool ds).2) := by
   simp [run, select]
-
-/-- the upstream owning counter value `t` -/
-def ownerRes (ws : List Nat) (t : Nat) : Res :=
-  match ownerGo ws 0 0 (t % ws.sum) with
-  | some i => .sel i
-  | none => .none
-
-theorem wrr_run (ws : List Nat) (pool : Pool) (ds : List Nat)
-    (hall : ∀ v ∈ pool, v.avail = true) (hlen : ws.length = pool.length) (h2 : 2 ≤ ws.length)
-    (hs : 0 < ws.sum) : ∀ (m c : Nat), c + m < u32 →
-    (run m (.wrr ws c) pool ds).1.map (·.1) = (List.range' (c + 1) m).map (ownerRes ws) ∧
-    (run m (.wrr ws c) pool ds).2 = .wrr ws (c + m)
-  | 0, c, _ => by simp [run]
-  | m + 1, c, hc => by
-    obtain ⟨i, h1, h2'⟩ := selWRR_owner ws pool c hall hlen h2 hs (by omega)
-    obtain ⟨g1, g2⟩ := wrr_run ws pool ds hall hlen h2 hs m (c + 1) (by omega)
-    rw [run_wrr_succ, h2']
-    simp only [List.map_cons, List.range'_succ]
-    refine ⟨?_, by rw [g2]; congr 1; omega⟩
-    rw [g1]
-    congr 1
-    simp [ownerRes, h1]
 
 theorem ownerGo_ge : ∀ (ws : List Nat) (i0 tot t j : Nat), ownerGo ws i0 tot t = some j → i0 ≤ j
   | [], _, _, _, _, h => by simp [ownerGo] at h
@@ -1569,22 +1376,120 @@ theorem countP_owner : ∀ (ws : List Nat) (i0 tot k : Nat),
       rw [h1, h2, countP_owner ws (i0 + 1) (tot + w) k]
       simp
 
-/-- **over `W` (total weight) consecutive selections upstream `i` is chosen exactly `wᵢ` times** -/
-theorem wrr_counts (ws : List Nat) (pool : Pool) (c : Nat) (ds : List Nat)
-    (hall : ∀ v ∈ pool, v.avail = true) (hlen : ws.length = pool.length) (h2 : 2 ≤ ws.length)
-    (hs : 0 < ws.sum) (hc : c + ws.sum < u32) (i w : Nat) (hw : ws[i]? = some w) :
-    ((run ws.sum (.wrr ws c) pool ds).1.map (·.1)).count (.sel i) = w := by
-  rw [(wrr_run ws pool ds hall hlen h2 hs ws.sum c hc).1]
+/-- the upstream owning counter value `t` in the cycle of the weights `ws` -/
+def ownerRes (ws : List Nat) (t : Nat) : Res :=
+  match ownerGo ws 0 0 (t % ws.sum) with
+  | some i => .sel i
+  | none => .none
+
+/-- what weighted round robin returns at counter value `t` (two or more weights, a positive cycle) -/
+def wrrRes (ws : List Nat) (pool : Pool) (t : Nat) : Res :=
+  wrrScan (wrrEff ws pool) pool (wrrIndexGo (wrrEff ws pool) 0 0 (t % (wrrEff ws pool).sum)) (wrrEff ws pool).length 0
+
+theorem selWRR_eq (ws : List Nat) (pool : Pool) (c : Nat) (hp : pool.length ≠ 0) (h2 : 2 ≤ ws.length)
+    (hs : 0 < (wrrEff ws pool).sum) (hc : c + 1 < u32) : selWRR ws pool c = (wrrRes ws pool (c + 1), c + 1) := by
+  unfold selWRR wrrRes
+  rw [if_neg hp, if_neg (by omega), if_neg (by omega), inc32_of_lt hc]
+
+/-- the owner of the current cycle position, and the first usable position from there on -/
+theorem wrrRes_char (ws : List Nat) (pool : Pool) (t : Nat) (hs : 0 < (wrrEff ws pool).sum) :
+    ∃ o w, ownerGo (wrrEff ws pool) 0 0 (t % (wrrEff ws pool).sum) = some o ∧ (wrrEff ws pool)[o]? = some w ∧ 0 < w ∧
+      wOffset (wrrEff ws pool) o ≤ t % (wrrEff ws pool).sum ∧ t % (wrrEff ws pool).sum < wOffset (wrrEff ws pool) o + w ∧
+      wrrRes ws pool t = wrrScan (wrrEff ws pool) pool o (wrrEff ws pool).length 0 := by
+  have hcw : t % (wrrEff ws pool).sum < (wrrEff ws pool).sum := Nat.mod_lt _ hs
+  obtain ⟨o, hown⟩ := ownerGo_some (wrrEff ws pool) 0 0 (t % (wrrEff ws pool).sum) (Nat.zero_le _) (by omega)
+  obtain ⟨k, w, hk, hw, hlo, hhi⟩ := ownerGo_spec (wrrEff ws pool) 0 0 (t % (wrrEff ws pool).sum) o (Nat.zero_le _) hown
+  have hko : k = o := by omega
+  subst hko
+  refine ⟨k, w, hown, hw, by omega, by simpa [wOffset] using hlo, by simpa [wOffset] using hhi, ?_⟩
+  unfold wrrRes
+  rw [wrrIndexGo_eq_owner _ _ _ _ _ hown]
+
+/-- if the owner is usable, it is returned -/
+theorem wrrRes_owner_usable (ws : List Nat) (pool : Pool) (t o : Nat)
+    (hown : ownerGo (wrrEff ws pool) 0 0 (t % (wrrEff ws pool).sum) = some o)
+    (hu : wrrUsable ws pool o = true) : wrrRes ws pool t = .sel o := by
+  obtain ⟨_, w, _, hw, _, _⟩ := wrrUsable_iff.1 (wrrUsable_eff (ws := ws) ▸ hu)
+  have hlt : o < (wrrEff ws pool).length := (List.getElem?_eq_some_iff.1 hw).1
+  unfold wrrRes
+  rw [wrrIndexGo_eq_owner _ _ _ _ _ hown]
+  have hlen : (wrrEff ws pool).length = (wrrEff ws pool).length - 1 + 1 := by omega
+  rw [hlen]
+  unfold wrrScan
+  simp only [Nat.add_zero, Nat.mod_eq_of_lt hlt]
+  rw [wrrUsable_eff, hu]
+  simp
+
+theorem wrr_run (ws : List Nat) (pool : Pool) (ds : List Nat) (hp : pool.length ≠ 0) (h2 : 2 ≤ ws.length)
+    (hs : 0 < (wrrEff ws pool).sum) : ∀ (m c : Nat), c + m < u32 →
+    (run m (.wrr ws c) pool ds).1.map (·.1) = (List.range' (c + 1) m).map (wrrRes ws pool) ∧
+    (run m (.wrr ws c) pool ds).2 = .wrr ws (c + m)
+  | 0, c, _ => by simp [run]
+  | m + 1, c, hc => by
+    obtain ⟨g1, g2⟩ := wrr_run ws pool ds hp h2 hs m (c + 1) (by omega)
+    rw [run_wrr_succ, selWRR_eq ws pool c hp h2 hs (by omega)]
+    simp only [List.map_cons, List.range'_succ]
+    exact ⟨by rw [g1], by rw [g2]; congr 1; omega⟩
+
+/-- over a cycle, a usable upstream is chosen at least as often as its weight says — whatever
+    the other upstreams do -/
+theorem wrr_counts_ge (ws : List Nat) (pool : Pool) (c : Nat) (ds : List Nat) (hp : pool.length ≠ 0)
+    (h2 : 2 ≤ ws.length) (hs : 0 < (wrrEff ws pool).sum) (hc : c + (wrrEff ws pool).sum < u32)
+    (i w : Nat) (hw : (wrrEff ws pool)[i]? = some w) (hu : wrrUsable ws pool i = true) :
+    w ≤ ((run (wrrEff ws pool).sum (.wrr ws c) pool ds).1.map (·.1)).count (.sel i) := by
+  rw [(wrr_run ws pool ds hp h2 hs _ c hc).1]
   rw [List.count_eq_countP, List.countP_map]
-  rw [countP_window _ ws.sum (fun t => by simp [ownerRes])]
-  have := countP_owner ws 0 0 i
-  simp only [Nat.zero_add, hw, Option.getD_some] at this
-  refine Eq.trans ?_ this
-  apply List.countP_congr
-  intro t ht
+  have hown := countP_owner (wrrEff ws pool) 0 0 i
+  simp only [Nat.zero_add, hw, Option.getD_some] at hown
+  have hwin := countP_window (fun t => ownerGo (wrrEff ws pool) 0 0 (t % (wrrEff ws pool).sum) == some i)
+    (wrrEff ws pool).sum (fun t => by simp) (c + 1)
+  have hbase : (List.range' 0 (wrrEff ws pool).sum).countP
+      (fun t => ownerGo (wrrEff ws pool) 0 0 (t % (wrrEff ws pool).sum) == some i) = w := by
+    refine Eq.trans ?_ hown
+    apply List.countP_congr
+    intro t ht
+    simp at ht
+    rw [Nat.mod_eq_of_lt ht]
+  rw [← hbase, ← hwin]
+  apply List.countP_mono_left
+  intro t _ ht
   simp at ht
-  simp only [Function.comp, ownerRes, Nat.mod_eq_of_lt ht]
-  cases ownerGo ws 0 0 t <;> simp
+  simp [Function.comp, wrrRes_owner_usable ws pool t i ht hu]
+
+/-- … and exactly as often when every position with a positive weight is usable -/
+theorem wrr_counts (ws : List Nat) (pool : Pool) (c : Nat) (ds : List Nat) (hp : pool.length ≠ 0)
+    (h2 : 2 ≤ ws.length) (hs : 0 < (wrrEff ws pool).sum) (hc : c + (wrrEff ws pool).sum < u32)
+    (hall : ∀ j v, (wrrEff ws pool)[j]? = some v → 0 < v → wrrUsable ws pool j = true)
+    (i w : Nat) (hw : (wrrEff ws pool)[i]? = some w) :
+    ((run (wrrEff ws pool).sum (.wrr ws c) pool ds).1.map (·.1)).count (.sel i) = w := by
+  rw [(wrr_run ws pool ds hp h2 hs _ c hc).1]
+  rw [List.count_eq_countP, List.countP_map]
+  have hown := countP_owner (wrrEff ws pool) 0 0 i
+  simp only [Nat.zero_add, hw, Option.getD_some] at hown
+  have hwin := countP_window (fun t => ownerGo (wrrEff ws pool) 0 0 (t % (wrrEff ws pool).sum) == some i)
+    (wrrEff ws pool).sum (fun t => by simp) (c + 1)
+  have hbase : (List.range' 0 (wrrEff ws pool).sum).countP
+      (fun t => ownerGo (wrrEff ws pool) 0 0 (t % (wrrEff ws pool).sum) == some i) = w := by
+    refine Eq.trans ?_ hown
+    apply List.countP_congr
+    intro t ht
+    simp at ht
+    rw [Nat.mod_eq_of_lt ht]
+  rw [← hbase, ← hwin]
+  apply List.countP_congr
+  intro t _
+  obtain ⟨o, v, hown', hv, hpos, _, _, _⟩ := wrrRes_char ws pool t hs
+  rw [hown']
+  simp only [Function.comp, wrrRes_owner_usable ws pool t o hown' (hall o v hv hpos)]
+  simp
+
+theorem get_le_sum : ∀ {l : List Nat} {i w : Nat}, l[i]? = some w → w ≤ l.sum
+  | [], _, _, h => by simp at h
+  | x :: l, 0, w, h => by simp at h; subst h; simp
+  | x :: l, i + 1, w, h => by
+    simp at h
+    have := get_le_sum h
+    simp [List.sum_cons]; omega
 
 /-- with a ResponseWriter no policy term can hit the nil dereference -/
 theorem nilSafe_true : ∀ (p : Policy), nilSafe true p = true
